@@ -7,7 +7,7 @@ import math
 
 import numpy as np
 
-from ..kernel import chance, pick, wpick, adigest, sdigest
+from ..kernel import chance, pick, wpick, adigest, sdigest, scribble
 from ..simrng import SimRNG, global_state_token, global_state_now
 from .. import present
 
@@ -132,12 +132,25 @@ def _real_rng(op):
     return np.random.default_rng(op["seed"])
 
 
+def _own(fn):
+    """wrap a do_* function: whatever arrays it kept in run._outputs are edited in place by the caller afterwards"""
+    def g(run, op):
+        run._outputs = []
+        try:
+            return fn(run, op)
+        finally:
+            if scribble(run._outputs):
+                run.fault("caller_edited_a_result_in_place")
+            run._outputs = []
+    return g
+
+
 def execute(script, run, env):
     for i, op in enumerate(script["ops"]):
         run.step = i
         tok = global_state_token()
         fn = {"cap": do_cap, "box": do_box, "sampler": do_sampler, "cholesky": do_cholesky, "indices": do_indices}[op["k"]]
-        fn(run, op)
+        _own(fn)(run, op)
         if run.prop == "C19" and op["k"] != "cholesky" and not (op["k"] == "indices" and op.get("how") == "seed"):
             run.checks += 1
             if global_state_now() != tok:
@@ -190,6 +203,7 @@ def do_cap(run, op):
             run.fail("rng.cap.raises", feats, "randcap(%d, %r, %r, %r, %r) raised %r" % (n, ra, dec, rad, kw, e))
         return
     _edges(run, rng)
+    run._outputs.append(out)
     run.event(0, "cap", sdigest(op), "ok", adigest(tuple(out)))
     if not judge:
         return
@@ -309,6 +323,7 @@ def do_box(run, op):
             run.fail("rng.box.raises", feats, "randsphere(%d, %r) raised %r" % (n, kw, e))
         return
     _edges(run, rng)
+    run._outputs.append(out)
     run.event(0, "box", sdigest(op), "ok", adigest(tuple(out)))
     if not judge:
         return
@@ -464,6 +479,7 @@ def do_sampler(run, op):
             run.fail("rng.sampler.raises", feats, "Generator(...).sample(%r) raised %r" % (n, e))
         return
     _edges(run, rng)
+    run._outputs.append(got)
     run.event(0, "sampler", sdigest(op), "ok", adigest(got))
     for nm, g_ in guards:
         run.checks += 1
@@ -610,6 +626,7 @@ def do_cholesky(run, op):
             run.fail("rng.chol.raises", feats, "Cholesky sampling (%s, d=%d, n=%r) raised %r" % (op["api"], d, n, e))
         return
     _edges(run, src)
+    run._outputs.append(got)
     run.event(0, "cholesky", sdigest(op), "ok", adigest(np.asarray(got)))
     for nm, g_ in guards:
         run.checks += 1
@@ -638,7 +655,17 @@ def do_cholesky(run, op):
     z = calls[0].reshape(d, nn)
     ref = (Lr @ z).T + (mean[None, :] if use_mean else 0.0)
     scale = (np.abs(Lr) @ np.abs(z)).T + (np.abs(mean)[None, :] if use_mean else 0.0)
-    tol = 1e-12 * scale + 1e-300
+    # two correct Cholesky factorisations agree to about eps * cond(correlation matrix) relative to |L||z|
+    # (the factorisation is invariant under scaling of the axes, so the condition number of the matrix scaled to
+    # unit diagonal is the one that counts)
+    sd = np.sqrt(np.diag(cov))
+    kappa = float(np.linalg.cond(cov / sd[:, None] / sd[None, :])) if d > 1 else 1.0
+    # ... and the error of an entry of L is relative to the norm of its ROW, not to the entry itself (a small
+    # off-diagonal entry next to large ones carries a large relative error)
+    rown = np.sqrt(np.sum(Lr * Lr, axis=1))
+    scale = np.maximum(scale, (np.max(np.abs(z), axis=0)[:, None] * rown[None, :])
+                       + (np.abs(mean)[None, :] if use_mean else 0.0))
+    tol = max(1e-12, 64 * np.finfo("f8").eps * kappa) * scale + 1e-300
     err = np.abs(got - ref)
     run.margin("rng.chol.value", float(np.max(err / tol)))
     if np.any(err > tol):
